@@ -98,6 +98,10 @@ def run(ctx):
     for path in sorted(allfx):
         if path == A + "new_limited":
             continue
+        if ac.spliceable(cr.fns[path]):
+            callers = cr.callers_of(path) if hasattr(cr, "callers_of") else []
+            ck.ob("R12d", path, True, f"{path} is a private accounting helper: its effects are accounted at its call sites", site=cr.fns[path].where(0), trivial=True)
+            continue
         ck.ob("R12d", path, path in AUDITED_EFFECT_FNS, f"{path} touches counted allocator storage and is audited",
               site=cr.fns[path].where(0),
               detail=AUDITED_EFFECT_FNS.get(path) or "unaudited function mutating u8_vec/atom_vec/pair_vec/ghost counters: "
@@ -114,7 +118,7 @@ def run(ctx):
         if not be or all(all(c == "zerosize" for _, c, _ in v) for v in be.values()):
             continue
         if f.path in (A + "restore_checkpoint", A + "restore_transparent_checkpoint", A + "maybe_restore_with_node",
-                      A + "add_ghost_pair", A + "remove_ghost_pair", A + "add_ghost_atom"):
+                      A + "add_ghost_pair", A + "remove_ghost_pair", A + "add_ghost_atom") or ac.spliceable(f):
             continue
         ck.analysed(f)
         exits = patheff.run(f, be, patheff.default_ret_kind, CLASSES)
